@@ -245,6 +245,17 @@ def main():
             witness = None
             if hasattr(prop, "search_failing_input") and not args.replay:
                 witness = prop.search_failing_input(rng, tier, [us[j] for j in corr_only], evaluate)
+            elif not args.replay:
+                # generic wider search: fresh batches of cases (other sub-seeds), looking for an input on which the PROPERTY itself fails
+                for extra_round in range(int(os.environ.get("VERIF_SEARCH_ROUNDS", "3"))):
+                    rng2 = random.Random(seed * 7 + 104729 * (extra_round + 1) + int(pid[1:]))
+                    us2 = prop.units(rng2, tier)
+                    oc2 = evaluate(prop, us2, timeout=getattr(prop, "CASE_TIMEOUT", 60))
+                    cand = [j for j in sorted(oc2.judged)
+                            if not (hasattr(prop, "known_finding") and prop.known_finding(us2[j], oc2.impl[j], oc2.model[j], oc2.mismatch.get(j), oc2.judged.get(j), known))]
+                    if cand:
+                        witness = shrink(prop, us2[cand[0]], fails_judge)
+                        break
             if witness is not None:
                 o1 = evaluate(prop, [witness])
                 path = write_replay("violation", {
